@@ -134,6 +134,45 @@ def torn_cases(quick):
     return out
 
 
+def unloadable_cases(quick):
+    """The child answers with something the receiving side cannot recreate: the remote frontend meets a message it cannot load.
+    Consumers: the api, a for loop over results_iter(), and a consumer multiplexing the caller-supplied results pipe like the Pool."""
+    out = []
+    for kind in ('PR',):
+        for consumer in ('api', 'iter', 'mux'):
+            for before in ((1,) if quick else (0, 1, 2)):
+                sc = [{'op': 'create', 'var': 'w', 'kind': kind, 'target': 'p_badresult', 'pipe': 'supplied' if consumer == 'mux' else 'default'}]
+                for x in list(range(1, before + 1)) + [99, 7]:
+                    sc.append({'op': 'call', 'var': 'w', 'method': 'enqueue', 'args': [x]})
+                if consumer == 'mux':
+                    sc.append({'op': 'mux_drain', 'var': 'w', 'tag': 'drain', 'timeout': 10})
+                else:
+                    sc += [{'op': 'sleep', 's': 0.8},
+                           {'op': 'drain', 'var': 'w', 'tag': 'drain', 'timeout': 8, 'iter': consumer == 'iter'}]
+                sc += [{'op': 'call', 'var': 'w', 'method': 'terminate', 'kwargs': {'timeout': 3}, 'timeout': 30, 'tag': 'terminate'}]
+                out.append({'script': sc, 'kind': kind, 'consumer': consumer, 'before': before})
+    return out
+
+
+def judge_unloadable(case, obs):
+    if obs.get('driver_hang') or obs.get('driver_error'):
+        return ('harness', obs.get('driver_hang') or obs.get('driver_error'))
+    t = {}
+    for op, st in zip(case['script'], obs['steps']):
+        if op.get('tag'):
+            t[op['tag']] = st
+    if 'ret' not in obs['steps'][0]:
+        return ('harness', obs['steps'][0])
+    d = t.get('drain', {})
+    exp = [x * 10 for x in range(1, case['before'] + 1)]
+    if d.get('end') not in (('marker', 'eof') if case['consumer'] == 'mux' else ('empty',)):
+        return ('stream-never-ends' if d.get('end') == 'hang' else 'stream-end-%s' % d.get('end'), {'end': d.get('end'), 'results_before': d.get('ret')})
+    got = d.get('ret') or []
+    if got != exp[:len(got)]:
+        return ('not-a-prefix', {'got': got})
+    return None
+
+
 def judge_torn(case, obs):
     if obs.get('driver_hang') or obs.get('driver_error'):
         return ('harness', obs.get('driver_hang') or obs.get('driver_error'))
@@ -277,6 +316,22 @@ def run(ctx):
         ctx.violation('SEQ/%s/killed-in-the-middle-of-a-send/%s/%s/%s' % (case['kind'], case['how'], case['consumer'], v[0]),
                       {k: case[k] for k in ('kind', 'how', 'consumer', 'nread', 'size', 'script')}, v[1],
                       'a prefix of the expected results, then the end of the stream (queue.Empty)', engine='SEQ')
+    ucs = unloadable_cases(ctx.quick)
+    ures = land.run_cases(ucs, case_timeout=120)
+    ctx.extra['unloadable_result_runs'] = len(ucs)
+    for case, o in zip(ucs, ures):
+        ctx.count()
+        ctx.distinct(('unloadable', case['kind'], case['consumer'], case['before']))
+        v = judge_unloadable(case, o)
+        ctx.outcome('%s-unloadable-result:%s:%s' % (case['kind'], case['consumer'], v[0] if v else 'ok'))
+        if v is None:
+            continue
+        if v[0] == 'harness':
+            ctx.extra.setdefault('harness_anomalies', []).append({'unloadable': [case['kind'], case['consumer']], 'why': str(v[1])[:160]})
+            continue
+        ctx.violation('SEQ/%s/result-which-cannot-be-recreated/%s/%s' % (case['kind'], case['consumer'], v[0]),
+                      {k: case[k] for k in ('kind', 'consumer', 'before', 'script')}, v[1],
+                      'a prefix of the expected results, then the end of the stream (queue.Empty / end-of-results message / EOF)', engine='SEQ')
     harness = 0
     for obs in bases + runs + forced:
         case = obs['case']
